@@ -246,6 +246,59 @@ def h_via_file(env, version=3.1, optics=True, explicit=False):
         env.check("file_halfset_parity_%d" % i, env.true() if int(a["subtomo_id"]) % 2 == int(r["subtomo_id"]) % 2 else env.not_(env.true()))
 
 
+def h_import_file(env, version=3.1, optics=True, entry="class"):
+    """RELION data written by the harness' own writer (standard layout: data_optics first, then data_particles; origin shifts
+    in Angstrom for >= 3.1, in pixels for 3.0; no rlnPixelSize column), imported WITHOUT telling the pixel size when an
+    optics block is there.  Concrete cells (exact in 6 decimals); pixel size / half-set pattern by solver forks."""
+    cm = env.module("cryomotl")
+    env.option("real_rotation", True)
+    px = [2.5, 1.0, 0.8][_pickc(env, "px", 3)]
+    hs = [[1, 2, 1, 2], [2, 1, 1, 2]][_pickc(env, "hs", 2)]
+    parts = [(5, 1, 1, (101.0, 202.0, 53.0), (2.5, -5.0, 7.5), (10.0, 30.0, -20.0)), (5, 2, 2, (310.5, 44.25, 61.0), (-1.25, 0.0, 3.75), (-135.0, 90.0, 170.0)),
+             (12, 3, 1, (12.0, 400.0, 75.5), (10.0, 6.25, -8.75), (45.0, 0.0, 60.0)), (12, 4, 3, (250.0, 260.0, 80.0), (-12.5, 1.25, 0.0), (0.0, 180.0, 25.0))]
+    path = env.real_path("independent.star")
+    org = ["rlnOriginX", "rlnOriginY", "rlnOriginZ"] if version < 3.1 else ["rlnOriginXAngst", "rlnOriginYAngst", "rlnOriginZAngst"]
+    with open(path, "w") as f:
+        if optics:
+            f.write("\n# version 30001\n\ndata_optics\n\nloop_\n")
+            oc = ["rlnOpticsGroup", "rlnOpticsGroupName", "rlnSphericalAberration", "rlnVoltage", "rlnImagePixelSize", "rlnImageSize", "rlnImageDimensionality"]
+            for i, c in enumerate(oc, 1):
+                f.write("_%s #%d\n" % (c, i))
+            f.write("1\topticsGroup1\t2.700000\t300.000000\t%.6f\t64\t3\n\n" % px)
+        f.write("\n# version 30001\n\ndata_particles\n\nloop_\n" if version >= 3.1 else "\ndata_\n\nloop_\n")       # RELION 3.0 files carry no version comment
+        cols = (["rlnTomoName", "rlnTomoParticleName"] if version >= 4.0 else ["rlnMicrographName", "rlnImageName"]) + ["rlnCoordinateX", "rlnCoordinateY", "rlnCoordinateZ"] + org + \
+               ["rlnAngleRot", "rlnAngleTilt", "rlnAnglePsi", "rlnClassNumber", "rlnRandomSubset"] + (["rlnOpticsGroup"] if optics else [])
+        for i, c in enumerate(cols, 1):
+            f.write("_%s #%d\n" % (c, i))
+        for k, (t, sn, cl, coord, origin, ang) in enumerate(parts):
+            names = ["TS_%03d" % t, "TS_%03d/%d" % (t, sn)] if version >= 4.0 else ["/data/tomos/%03d_bin4.rec" % t, "/data/subtomo/%03d/%03d_%04d_bin4.mrc" % (t, t, sn)]
+            vals = names + ["%.6f" % v for v in coord + origin + ang] + [str(cl), str(hs[k])] + (["1"] if optics else [])
+            f.write("\t".join(vals) + "\n")
+        f.write("\n")
+    kw = {} if optics else {"pixel_size": px}
+    if entry == "class":
+        obj = cm.RelionMotl(path, **kw)
+        env.check("version_recognised", env.true() if float(obj.version) == float(version) else env.not_(env.true()))
+        mdf = obj.df
+    else:
+        mdf = cm.relion2emmotl(path, **kw).df
+    env.check("row_count", env.true() if mdf.shape[0] == len(parts) else env.not_(env.true()))
+    if mdf.shape[0] != len(parts):
+        return
+    for i, (t, sn, cl, coord, origin, ang) in enumerate(parts):
+        a = {k: float(mdf[k].iloc[i]) for k in COLS}
+        env.check("position_is_rlnCoordinate_%d" % i, env.true() if all(abs(a[c] - v) <= 1e-5 for c, v in zip("xyz", coord)) else env.not_(env.true()))
+        exp = [-o if version < 3.1 else -o / px for o in origin]
+        env.check("shift_is_minus_origin_over_pixel_size_%d" % i, env.true() if all(abs(a["shift_" + c] - v) <= 1e-5 for c, v in zip("xyz", exp)) else env.not_(env.true()))
+        Rr = R_ZYZ_intrinsic(_PlainEnv, *ang)
+        Ra = R_zxz(_PlainEnv, a["phi"], a["theta"], a["psi"])
+        oko = all(abs(Ra[u][v] - Rr[v][u]) <= 1e-5 for u in range(3) for v in range(3))        # zxz rotation = inverse (transpose) of the RELION rotation
+        env.check("orientation_inverse_%d" % i, env.true() if oko else env.not_(env.true()))
+        env.check("tomo_class_subtomo_%d" % i, env.true() if (a["tomo_id"] == t and a["class"] == cl and a["geom3"] == sn) else env.not_(env.true()))
+        env.check("halfset_parity_%d" % i, env.true() if int(a["subtomo_id"]) % 2 == hs[i] % 2 else env.not_(env.true()))
+    env.check("subtomo_ids_unique", env.true() if len(set(float(v) for v in mdf["subtomo_id"])) == len(parts) else env.not_(env.true()))
+
+
 class _PlainEnv:
     """float evaluation of the harness' matrix formulas"""
     mode = "conc"
@@ -288,7 +341,9 @@ def jobs(tier, seed):
           ("h_roundtrip", {"version": 3.1, "ids": "b", "tomo_format": "TS_$xxx.rec", "subtomo_format": "subtomo/T_$xxxx/T$xxxx_$yyyyy_7.40A.mrc"}),
           ("h_roundtrip", {"version": 4.0, "ids": "b", "tomo_format": "TS_$xxx", "subtomo_format": "TS_$xxx/$y"})]
     j += [("h_via_file", {"version": 3.1, "optics": True}), ("h_via_file", {"version": 4.0, "optics": True}), ("h_via_file", {"version": 3.0, "optics": False}),
-          ("h_via_file", {"version": 3.1, "optics": False, "explicit": True})]
+          ("h_via_file", {"version": 3.1, "optics": False, "explicit": True}),
+          ("h_import_file", {"version": 3.1, "optics": True}), ("h_import_file", {"version": 4.0, "optics": True, "entry": "relion2emmotl"}),
+          ("h_import_file", {"version": 3.0, "optics": False}), ("h_import_file", {"version": 4.0, "optics": False})]
     if tier == "thorough":
         j += [("h_via_file", {"version": 4.0, "optics": False}), ("h_via_file", {"version": 4.0, "optics": True, "explicit": True})]
         for v in (3.0, 3.1, 4.0):
